@@ -78,6 +78,21 @@ CLAIMS = {
             "restricted, as the property is, to trees without zero-width nodes and to field names on which tree-sitter's "
             "cursor and child_by_field_name agree and that label at most one child",
             "DESIGN.md section 3 C05"),
+    "C01": ("model_checking",
+            "TLA+ models of potential_kinds (Rule.tla PK), the overlap-free visit (Traversal.tla) and the literal "
+            "prefilter (Prefilter.tla) model-checked by TLC; TLC-enumerated rule programs and patterns replayed through "
+            "find_all / Visitor / CombinedScan / sg run / sg scan and judged by TLC",
+            "Stage 1 (shared rule pipeline): for every TLC-enumerated rule program on every real tree, every matched "
+            "node's kind must lie in the real potential-kind set (bare Rule and RuleCore), find_all, the reentrant "
+            "Visitor and CombinedScan must equal per-node matching in document order, and the overlap-free visit must "
+            "yield exactly the outermost matches; MC_Rules proves KindSound for the transcribed PK, MC_C19 proves the "
+            "overlap-free visit for all tree shapes x match sets. Stage 2: MC_Prefilter proves the prefilter never hides "
+            "a match at the levels where it applies; its vectors (class members with optional modifiers), near-miss "
+            "sibling lists and patterns cut from 20+ corpus languages are run at 5 strictness levels through sg run "
+            "(file, --stdin) and sg scan (file, --stdin) and Trace_C01cli requires all to equal the library search.",
+            "single-document files only in the CLI stage; kinds beyond the sampled universes are seen only through "
+            "the corpus; every CLI run is an isolated child under timeout",
+            "DESIGN.md section 3 C01"),
 }
 
 NOT_YET = "check not built yet in this round (construction order in DESIGN.md section 9); not claimed until it runs"
